@@ -127,6 +127,32 @@ int main(int argc, char **argv)
       report("service", "schedule-refused-after-stop", refusedId == 0, "id=" + std::to_string(refusedId));
     }
     {
+      // drain while a batch of handlers that came due together is being worked off: when drain returns nothing may
+      // be left to start (the whole collected batch counts as executing, not only the handler that is running).
+      // All timers share one deadline; the first handler of the batch is held until drain() has been called.
+      TimerService svc;
+      std::atomic<bool> drained{false}, drainCalled{false};
+      std::atomic<int> started{0}, startedLate{0};
+      const int burst = 600;
+      auto deadline = Clock::now() + ms(120);
+      for (int i = 0; i < burst; ++i)
+        svc.scheduleAt(deadline, [&]
+        {
+          if (drained.load()) startedLate++;
+          if (started.fetch_add(1) == 0)
+            for (int k = 0; k < 4000 && !drainCalled.load(); ++k) std::this_thread::sleep_for(std::chrono::microseconds(500));
+          std::this_thread::sleep_for(std::chrono::microseconds(300));
+        });
+      for (int k = 0; k < 4000 && started.load() == 0; ++k) std::this_thread::sleep_for(std::chrono::microseconds(500));
+      std::thread drainer([&] { drainCalled = true; svc.drain(8000); drained = true; });
+      drainer.join();
+      int atDrain = started.load();
+      std::this_thread::sleep_for(ms(300));
+      report("service", "quiescent-after-drain", startedLate.load() == 0 && started.load() == atDrain,
+             "started_at_drain=" + std::to_string(atDrain) + " of " + std::to_string(burst) + " started_after=" + std::to_string(startedLate.load()));
+      svc.stop();
+    }
+    {
       TimingWheel wheel(ms(5), 16, 3);
       wheel.start();
       oneShots("wheel", 300, 5000 + 1000,  // one tick (5 ms) + 1 ms measurement slack
